@@ -3,6 +3,7 @@ import GormModel.Model.SchemaCache
 import GormModel.Model.WhereSwap
 import GormModel.Model.SharedCell
 import GormModel.Model.StmtWait
+import GormModel.Model.SharedStmt
 open Lean
 namespace Gorm.Drv
 open Gorm.SchemaCache
@@ -172,6 +173,22 @@ def handleC07 (op : String) (args : Array Json) : Option Json := do
       let s' := SharedCell.step scanSwapsInPlace acc.1 t
       (s', acc.2 ++ [s'.cell])) (SharedCell.init, [])
     some (Json.mkObj [("in_place", Json.bool scanSwapsInPlace), ("cell", natJ s.cell), ("cells", natListJ seen.2)])
+  | "stmt.sched" =>
+    -- ["stmt.sched", base, counters, sched]: Model.SharedStmt in the mode the regenerated fact says the tree uses; after every
+    -- step the keys of the shared handle's clause map; at the end what every goroutine built its statement from
+    let base ← parseNatList (arg args 1)
+    let counters ← parseNatList (arg args 2)
+    let sched ← parseNatList (arg args 3)
+    let k : Nat → Bool := fun t => counters.contains t
+    let seen := sched.foldl (fun (acc : SharedStmt.St × List (List Nat)) t =>
+      let s' := SharedStmt.step countStripsOnReceiver k acc.1 t
+      (s', acc.2 ++ [s'.base])) (SharedStmt.init base, [])
+    let g := (sched.foldl Nat.max 0) + 1
+    some (Json.mkObj [("on_receiver", Json.bool countStripsOnReceiver),
+      ("bases", Json.arr (seen.2.map natListJ).toArray),
+      ("built", Json.arr ((List.range g).map fun t => match (seen.1.ths t).built with
+        | some l => natListJ l
+        | none => Json.null).toArray)])
   | _ => none
 
 end Gorm.Drv
